@@ -98,3 +98,21 @@ Example merge_truncation_witness :
   exists im', im_merge (mkIM None [mkE 5 1 0 0; mkE 6 1 0 0; mkE 7 1 0 0] 7 5 0 0) [mkE 6 2 0 0] = Ok im'
               /\ im_saved im' = 5.
 Proof. eexists. vm_compute. split; reflexivity. Qed.
+
+(* Observation (necessity of the cycle hypothesis in wf_ops, replayed on the real code
+   as corpus/C19/edge.txt case e2): if the log is truncated between GetUpdate and its
+   Commit, twice, the stale acknowledgements are dropped (term mismatch) but
+   appliedLogTo still moves markerIndex past savedTo+1; entriesToSave's unsigned
+   idx-markerIndex then wraps and it returns NOTHING although entries 5 and 6 are
+   not persisted.  Not reachable through the engine: GetUpdate..Commit of a node
+   run inside one step-worker iteration with no raft.Handle in between. *)
+Example lagging_commit_strands_unsaved_entries :
+  let e i t k := mkE i t k 0 in
+  let ops := [OAppend [e 1 1 1; e 2 1 2; e 3 1 3; e 4 1 4; e 5 1 5]; OCommitTo 3; OGetUpdate true 0;
+              OReplicate 4 1 3 [e 5 2 6]; OPersist; OCommit; OGetUpdate true 3;
+              OReplicate 4 1 3 [e 5 3 7]; OPersist; OCommit; OAppend [e 6 3 8]] in
+  match run (w_init 0 0 [] 0 1000) ops with
+  | Ok w => el_to_save (w_el w) = [] /\ im_saved (el_im (w_el w)) = 0 /\ el_last (w_el w) (w_lr w) = 6
+            /\ wf_ops 1000 (sp_init 0 0 [] 0) ops = false
+  | _ => False end.
+Proof. vm_compute. repeat split; reflexivity. Qed.
